@@ -84,6 +84,11 @@ def variants(tier, half):
         # the activation's callbacks are a critical section like any event's
         out.append(((("__activate__",), ("a",)), False))
         out.append(((("__activate__",), ("a",), ("b",)), False))
+        # the first sender's task is cancelled at some point (a timeout around `await send`):
+        # whatever it was doing is cut short there and then - nothing of it keeps running
+        # beside the events of the other sender
+        out.append(((("a",), ("a",)), "cancel"))
+        out.append(((("a", "b"), ("a",)), "cancel"))
     if half == "threads":
         # the first sender's event fails in its `on` callback (C04 meets C06): the exception
         # reaches exactly the caller that was processing it, and the other sender's event is
@@ -211,6 +216,51 @@ def check_two(env, sms, events, tags, errors, deadlock):
         if queue_len(sm) or lock_held(sm):
             return f"O4 stranded: machine {i} queue {queue_len(sm)}, lock {lock_held(sm)}"
     return None, ("two",)
+
+
+def check_cancel(env, sm, errors, deadlock):
+    """The first sender's task was cancelled somewhere.  At most one event is cut short (a
+    prefix of its callback sequence), the callbacks of different events never overlap, nothing
+    keeps running or stays queued, and the state is the one the completed entries lead to."""
+    if deadlock:
+        return deadlock
+    if errors:
+        t, e = errors[0]
+        return f"sender {t} raised {type(e).__name__}: {e}"
+    recs = [r for r in env.flat if r.event != "__initial__"]
+    spans, order, per = {}, [], {}
+    for r in recs:
+        if not r.ended:
+            return f"{r.brief()} never finished"
+        if r.tag not in spans:
+            spans[r.tag] = [r.seq_begin, r.seq_end]
+            order.append(r.tag)
+        else:
+            spans[r.tag][1] = max(spans[r.tag][1], r.seq_end)
+        per.setdefault(r.tag, []).append(r)
+    init = [r for r in env.flat if r.event == "__initial__"]
+    prev_end, prev = max([r.seq_end for r in init], default=-1), "the activation"
+    for t in order:
+        if spans[t][0] < prev_end:
+            return (f"O1 overlap: callbacks of event {t} began (t={spans[t][0]}) before {prev} "
+                    f"had finished (t={prev_end})")
+        prev_end, prev = spans[t][1], f"event {t}"
+    partial = entered = 0
+    for t in order:
+        names = [r.cid[1] for r in per[t]]
+        if names != PATTERN_A[:len(names)]:
+            return f"X1 event {t}: callbacks {names} are not a prefix of {PATTERN_A}"
+        partial += len(names) < len(PATTERN_A)
+        if "on_enter_state" in names:
+            entered += NEXT[per[t][0].event]      # (b is a self-loop: entered, not advanced)
+    if partial > 1:
+        return f"X2 more than one event was cut short: {[(t, len(per[t])) for t in order]}"
+    qlen, locked = queue_len(sm), lock_held(sm)
+    if qlen or locked:
+        return f"O4 stranded: queue length {qlen}, lock held {locked} after all senders returned"
+    if init and sm.current_state_value != f"s{entered % 3}":
+        return f"X3 final state {sm.current_state_value}, expected s{entered % 3}"
+    return None, tuple(order)
 
 
 FAULT_K = 1
@@ -499,9 +549,19 @@ def run_async(ch, events, nested, pre_activate):
             env.seq += 1
             call["ret"] = env.seq
 
+    cancel = nested == "cancel"
+
+    async def canceller(tasks):
+        await vl.point(("X", "cancel"))
+        tasks[0].cancel()
+
     async def main():
         if pre_activate:
             await impl.sm.activate_initial_state()
+        if cancel:
+            tasks = [asyncio.ensure_future(sender(i)) for i in range(len(events))]
+            await asyncio.gather(canceller(tasks), *tasks, return_exceptions=True)
+            return
         await asyncio.gather(*(sender(i) for i in range(len(events))))
 
     deadlock = None
@@ -519,6 +579,8 @@ def run_async(ch, events, nested, pre_activate):
         return f"after all senders returned: {'; '.join(left)}", None
     if anon:
         r = check_anon(env, impl.sm, sum(map(len, events)), errors, deadlock)
+    elif cancel:
+        r = check_cancel(env, impl.sm, errors, deadlock)
     elif gated:
         r = check_gated(env, impl.sm, calls, errors, deadlock)
     else:
@@ -776,7 +838,7 @@ def explore_variant(res, half, vi, variant, tier, roots=None, root_run=True):
 def _cat(msg):
     if "O4K" in msg:
         return "event-enqueued-while-failing-drainer-holds-the-lock-is-stranded"
-    for key in ("NONDETERMINISTIC", "O1", "O2", "O3", "O4", "O5", "O7", "O8", "O9", "M1", "M2", "M3", "L1", "L2", "L3", "F1", "F2", "F3", "F4",
+    for key in ("NONDETERMINISTIC", "O1", "O2", "O3", "O4", "O5", "O7", "O8", "O9", "M1", "M2", "M3", "L1", "L2", "L3", "X1", "X2", "X3", "F1", "F2", "F3", "F4",
                 "F5", "deadlock", "hang", "raised",
                 "never finished", "suspended", "pending"):
         if key in msg:
